@@ -7,21 +7,73 @@ ENGINE = "scan"
 LEAN_MODULES = ["RtoscModel.Props.C11"]
 _NS = "Rtosc.Pretty.C11."
 THEOREMS = [_NS + t for t in (
-)]
+    # the four clauses, proved part: sentences of any length whose values are scalars in a proved spelling
+    # (Tok.proved), under every layout (white space / line breaks / comment lines anywhere between values)
+    "checker_scanner_agree_partial", "scan_denotes_partial", "whitespace_comment_invariance_partial",
+    "whitespace_comment_invariance_partial'", "print_scan_fixpoint_partial",
+    # the statement they all rest on, and the list loops over arbitrary gaps
+    "reads_plain", "countPrintedArgVals_lay", "scanArgVals_lay", "countPrintedArgVals_empty", "scanArgVals_empty",
+    # per-token agreement for every proved spelling of the specification; printing of the scanned values
+    "valOK_tok", "printsVal_tok", "printArgVals_lay",
+    # known finding C11-K1: the full statement fails on "077"; the proved part lies outside the trigger
+    "scan_denotes_counterexample", "plain_not_K1",
+    # non-vacuity: a sentence with one value of every proved construct under a messy layout
+    "exPlain")]
 HARNESS = {"src": ["scan.cpp"]}
 RULE = ("each case: one text generated constructively from the grammar of doc/Guide.adoc, section 'Pretty-printing "
         "Messages' (0..10 values: integers in decimal/hex/octal with and without the i/h suffix, floats and doubles in "
         "point/exponent/suffix/hex notation with and without an exact value in parentheses, characters raw or escaped, "
         "strings with escapes and 1..3 concatenated parts, identifiers and quoted symbols, true/false/nil/inf, "
-        "now/immediately, colours, MIDI, NxA repetitions of scalars and arrays, 'a b ... c' ranges of c/i/h/f/d, arrays "
+        "now/immediately, colours, MIDI, blobs (BLOB [n 0x.. …]), NxA repetitions of scalars and arrays, 'a b ... c' ranges of c/i/h/f/d, arrays "
         "with nested arrays, repetitions, ranges and open-ended ranges), rendered with 0..3 white-space / line-break / "
         "'%' comment insertions at every token boundary (comments between top-level values only); 40 % of the cases carry "
         "a second rendering of the same choices; a case is non-trivial when the text has at least two values or one "
         "compound value; distinct = distinct op line")
-ASSUMPTIONS = []
-TRUSTED = []
-LEVEL_TEXT = ""
-LEVEL_NOTE = ""
+ASSUMPTIONS = [
+    "the fix patches fixes/C11-01 … C11-05 are applied to the tree (on top of fixes/C10-*.patch): leading white space / "
+    "comments in rtosc_scan_arg_vals, numeric test for open-ended ranges in the scanner, no scan of a non-numeric left "
+    "neighbour in the checker, no left neighbour taken from inside a preceding array, nearest step count for float ranges",
+    "proved (Lean, no bound on the number of values, gaps or characters): all four clauses for sentences whose values are "
+    "scalars in these spellings: decimal 'i' (no suffix) and 'h' integers, characters raw or escaped (incl. '\\0'), strings "
+    "and quoted symbols of one part with every escape sequence, identifiers, true/false/nil/inf/now/immediately, colours "
+    "(lower-case digits), MIDI and blobs (in the printer's spacing; any white space between the bytes of a blob) — under "
+    "EVERY layout of white space, line breaks and '%' comment lines in front of, between and behind the values; "
+    "print_scan_fixpoint additionally assumes that the printer does not compress (no five values of one type in a row)",
+    "NOT proved, covered by exact model/implementation correspondence and the oracle on the implementation only: hex and "
+    "octal integers and the i suffix, floats and doubles in every notation (point, exponent, suffix, hex, exact value in "
+    "parentheses), strings concatenated from several parts, upper-case colours, other spacings inside MIDI, nxA, "
+    "'a b ... c' ranges of every type (integer and float), arrays with and without an open end",
+    "known finding C11-K1: an unsuffixed integer literal with a leading zero is read as decimal although the manual "
+    "promises C99 (octal) reading and the suffixed forms are read as octal; the model mirrors it, Lean proves the "
+    "counterexample, the run attributes an input to it only when the trigger holds, implementation = model, and every "
+    "clause holds under the decimal reading",
+    "float ranges: the oracle follows the manual (an n with |b+nd-c| <= 0.001; the step is one IEEE subtraction); texts "
+    "whose n or tolerance test is too close to call for a reference with exact arithmetic, and ranges whose left "
+    "neighbour is the computed end of a float range (not defined by the manual), are not generated",
+    "TZ=UTC, LC_ALL=C; the scanner's string buffer is abstracted (string/blob cells carry their bytes); the harness gives "
+    "the scanner exactly `count` cells (ASan sees any cell written beyond the count)",
+]
+TRUSTED = [
+    "hand-written model RtoscModel/Pretty/C11Model.lean (the repaired recursive cores of rtosc_scan_arg_val / "
+    "rtosc_skip_next_printed_arg, their list loops, delta_from_arg_vals with float arithmetic, range printer) on top of "
+    "C10's RtoscModel/Pretty/{Lex,Val,Print,Scan,Check}.lean, and RtoscModel/Pretty/C11Float.lean (IEEE sub/div/round/"
+    "to-int/tolerance compare on bit patterns)",
+    "libc modelled, not verified: RtoscModel/Libc/{Ctype,Printf,Float,Scanf,Time}.lean (as for C10)",
+    "the specification RtoscModel/Pretty/C11Spec.lean (Sentence / render / denote) is hand-written from doc/Guide.adoc; "
+    "the Python reference reader in this module is a second, independent reading of the same manual section",
+    "C16's cell type, Item/flatList and comparison model RtoscModel/ArgVal/*.lean (imported)",
+]
+LEVEL_TEXT = ("Lean theorems over an executable model of checker, scanner and printer: for sentences of ANY length whose values "
+              "are scalars in the proved spellings (decimal i/h integers, characters, one-part strings and quoted symbols with "
+              "all escapes, identifiers, keywords, colours, MIDI, blobs) and EVERY layout of white space, line breaks and "
+              "comment lines, the checker's count equals the number of cells the scanner writes, the whole text is consumed, "
+              "the cells are the denotation, two layouts scan to the same cells, and print-then-scan is the identity on the "
+              "scanned cells (induction over the token list, no size bound). All other constructs of the grammar (other numeric "
+              "spellings, floats, concatenated strings, nxA, ranges, arrays) are checked by exact model/implementation "
+              "correspondence on generated sentences and by an independent reference reader of the manual evaluated on the "
+              "implementation's output, not proved. One known finding (C11-K1, octal read as decimal) with a proved "
+              "counterexample")
+LEVEL_NOTE = "partial: scalars in the proved spellings under all layouts are proved; numeric spellings, nxA, ranges, arrays are correspondence + oracle only"
 
 # ------------------------------------------------------------------------------------
 # exact binary floating point on bit patterns (independent of the Lean model)
@@ -96,6 +148,10 @@ RE_IDENT = re.compile(rb"[A-Za-z_][A-Za-z0-9_]*")
 RE_COLOR = re.compile(rb"#([0-9a-fA-F]{8})")
 RE_MIDI = re.compile(rb"MIDI[ \t\n\v\f\r]*\[[ \t\n\v\f\r]*0x([0-9a-fA-F]{1,2})[ \t\n\v\f\r]+0x([0-9a-fA-F]{1,2})"
                      rb"[ \t\n\v\f\r]+0x([0-9a-fA-F]{1,2})[ \t\n\v\f\r]+0x([0-9a-fA-F]{1,2})[ \t\n\v\f\r]*\]")
+
+
+RE_BLOB_HEAD = re.compile(rb"BLOB[ \t\n\v\f\r]*\[[ \t\n\v\f\r]*(0|[1-9][0-9]{0,3})")
+RE_BLOB_BYTE = re.compile(rb"[ \t\n\v\f\r]+0x([0-9a-fA-F]{1,2})")
 
 
 class NotGrammar(Exception):
@@ -268,7 +324,24 @@ class Reader:
                     raise NotGrammar("bad MIDI")
                 return ('v', ('m',) + tuple(int(mm.group(k), 16) for k in (1, 2, 3, 4))), mm.end()
             if w == b"BLOB":
-                raise NotGrammar("blobs are not part of the grammar read here")
+                # the manual's example lacks the keyword ("[6 0x72 …]" would be an array of integers);
+                # the syntax read here is the one the code prints and scans: BLOB [n 0x.. …]
+                mm = RE_BLOB_HEAD.match(self.t, p)
+                if not mm:
+                    raise NotGrammar("bad BLOB")
+                n = int(mm.group(1))
+                q = mm.end()
+                data = bytearray()
+                for _ in range(n):
+                    mb = RE_BLOB_BYTE.match(self.t, q)
+                    if not mb:
+                        raise NotGrammar("bad BLOB byte")
+                    data.append(int(mb.group(1), 16))
+                    q = mb.end()
+                q = self.ws(q)
+                if q >= self.n or self.t[q] != 93:
+                    raise NotGrammar("BLOB not closed")
+                return ('v', ('b', bytes(data))), q + 1
             kw = {b"true": ('T',), b"false": ('F',), b"nil": ('N',), b"inf": ('I',), b"now": ('t', 1), b"immediately": ('t', 1)}
             if w in kw:
                 return ('v', kw[w]), m.end()
@@ -541,6 +614,8 @@ def cell_str(c):
         return "m%02x%02x%02x%02x" % c[1:]
     if k in "sS":
         return "%s:%s" % (k, c[1].hex() if c[1] else "-")
+    if k == 'b':
+        return "b:%s" % (c[1].hex() if c[1] else "-")
     return k
 
 
@@ -625,7 +700,7 @@ def tok_cell(t):
     if k == 'm':
         v = int(t[1:], 16)
         return ('m', v >> 24, (v >> 16) & 255, (v >> 8) & 255, v & 255)
-    if k in "sS" and t[1:2] == ':':
+    if k in "sSb" and t[1:2] == ':':
         return (k, b"" if t[2:] == "-" else bytes.fromhex(t[2:]))
     if t in ("T", "F", "N", "I"):
         return (t,)
@@ -838,7 +913,7 @@ def g_int(rng, edges, bits):
 
 def sp_int(rng, v, suffix, stats):
     """spelling of the integer v: decimal, hex (sign + magnitude, or two's complement for int32), octal"""
-    base = rng.choice("dddxxo")
+    base = rng.choice("ddddddxxxxxxoo" if suffix else "ddddddddxxxxxxxo")   # unsuffixed octal is known finding C11-K1
     stats["int_" + base] = stats.get("int_" + base, 0) + 1
     mag = abs(v)
     sign = "-" if v < 0 else ""
@@ -961,7 +1036,7 @@ def g_scalar(rng, stats, kinds=None):
     """one scalar value with a spelling: (type letter, list of (token bytes, boundary kind behind it))
     boundary kinds inside a value: 'cont' (string continuation: optional white space), 'paren' (white space
     required before '('), 'opt' (optional white space); the last token has kind 'end'"""
-    k = rng.choice(kinds or "iiiihhfffddccsssSSSkktrm")
+    k = rng.choice(kinds or "iiiihhfffddccsssSSSkktrmb")
     stats["kind_" + k] = stats.get("kind_" + k, 0) + 1
     if k == "i":
         v = g_int(rng, INT32_EDGE, 32)
@@ -996,6 +1071,13 @@ def g_scalar(rng, stats, kinds=None):
         return "t", [(rng.choice([b"now", b"immediately"]), "end")]
     if k == "r":
         return "r", [(b"#" + (("%08X" if rng.random() < 0.3 else "%08x") % rng.getrandbits(32)).encode(), "end")]
+    if k == "b":
+        n = rng.choice([0, 1, 2, 3, 6])
+        toks = [(b"BLOB", "opt"), (b"[", "opt"), (b"%d" % n, "sep" if n else "opt")]
+        for j in range(n):
+            toks.append(((b"0x%02x" if rng.random() < 0.7 else b"0x%X") % rng.getrandbits(8), "sep" if j + 1 < n else "opt"))
+        toks.append((b"]", "end"))
+        return "b", toks
     return "m", [(b"MIDI", "opt"), (b"[", "opt"), (b"0x%02x" % rng.getrandbits(8), "sep"), (b"0x%x" % rng.getrandbits(8), "sep"),
                  (b"0x%02x" % rng.getrandbits(8), "sep"), (b"0x%02X" % rng.getrandbits(8), "opt"), (b"]", "end")]
 
@@ -1093,14 +1175,14 @@ def g_array(rng, stats, depth):
             elems[-1] = elems[-1][:-1] + [(b"]", "dots"), (b"...", "end")]
             stats["array_open_range"] = stats.get("array_open_range", 0) + 1
     else:
-        kind = rng.choice("iihfdcsSSktrm")
+        kind = rng.choice("iihfdcsSSktrmb")
         for j in range(n):
             _, t = g_scalar(rng, stats, kind)
             if rng.random() < 0.15:
                 t = [(b"%dx" % rng.choice([1, 2, 3, 5, 10, 1000]), "glue")] + t
                 stats["array_rep"] = stats.get("array_rep", 0) + 1
             elems.append(t)
-        if n and kind in "sSktrmi" and rng.random() < 0.25 and elems[-1][0][1] != "glue":
+        if n and kind in "sSktrmib" and rng.random() < 0.25 and elems[-1][0][1] != "glue":
             # open-ended range of any element type (delta-less unless numeric with a differing neighbour)
             elems[-1] = elems[-1][:-1] + [(elems[-1][-1][0], "dots"), (b"...", "end")]
             stats["array_open_range"] = stats.get("array_open_range", 0) + 1
